@@ -72,7 +72,7 @@ CopyScenarios ==
 
 MountScenarios ==
   {[kind |-> "mount", k |-> d, v |-> v] : d \in {"/data", "/a/b c"},
-     v \in {"/src|bind|ro,rbind", "|tmpfs|", "/s||rw", "/s|bind|rprivate"}}
+     v \in {"/src|bind|ro,rbind", "|tmpfs|", "/s||rw", "/s|bind|rprivate", "/s|bind|rbind,rprivate,ro,nosuid"}}
 DeviceScenarios ==
   {[kind |-> "device", k |-> "/dev/x", v |-> v] :
      v \in {"c|1|3", "b|0|0|0|0|0", "c|254|7|420|-|5", "u|9223372036854775807|-1|4294967295|4294967295|0", "p|1|2|-|7"}}
